@@ -139,20 +139,55 @@ def r_fill_sign_voxel(rule, root=None):
 
 
 def r_trace_use(rule, path, label, root=None):
+    """the handle handed to children / pixels is `shape.simplify(<this tile's trace>, ..)` when the
+    interval evaluation returned a trace and `shape` itself otherwise (however the choice is written)"""
     fn = worker_fn(path, "render_tile_recurse", root)
     tv = _trace_var(fn)
-    t = txt(fn["body"])
-    want = "letsub_tape=ifletSome(trace)=%s.as_ref(){shape.simplify(trace,&mutself.workspace,&mutself.shape_storage,&mutself.tape_storage)}else{shape};" % tv
-    if want in t:
+    params = [A.binding_name(i["pat"]) for i in fn["sig"]["inputs"] if isinstance(i, dict) and "pat" in i]
+    shape_p = params[0] if params else "shape"
+    sub = None
+    why = "no `let <handle> = ..` choosing between %s.simplify(trace, ..) and %s" % (shape_p, shape_p)
+    for s in A.find(fn["body"], "Let"):
+        init = s.get("init")
+        if init is None or not any(c["method"] == "simplify" for c in A.find(init, "MethodCall")):
+            continue
+        name = A.binding_name(s["pat"])
+        leaves = A.branch_leaves(init)
+        simp, keep, other = [], [], []
+        for leaf, ctx in leaves:
+            lf = A.strip(leaf)
+            if lf.get("k") == "MethodCall" and lf["method"] == "simplify" and A.ident(A.strip(lf["recv"])) == shape_p:
+                simp.append((lf, ctx))
+            elif A.ident(lf) == shape_p:
+                keep.append((lf, ctx))
+            else:
+                other.append(lf)
+        if name is None or len(simp) != 1 or len(keep) != 1 or other:
+            why = "`%s` is not a choice between %s.simplify(..) and %s" % (A.unparse(s["pat"]), shape_p, shape_p)
+            continue
+        call, ctx = simp[0]
+        arg0 = A.ident(A.strip(call["args"][0])) if call["args"] else None
+        # the trace argument is the payload of this tile's Option<trace>
+        src = [A.option_source(scr) for (p, scr) in ctx if A.some_binding(p) == arg0]
+        if src != [tv]:
+            why = "%s.simplify is given `%s`, which is not the trace returned by this tile's interval evaluation (`%s`)" % (shape_p, arg0, tv)
+            continue
+        rest = [txt(a) for a in call["args"][1:]]
+        if rest != ["&mutself.workspace", "&mutself.shape_storage", "&mutself.tape_storage"]:
+            why = "simplify must use this worker's workspace and storages, found %s" % rest
+            continue
+        sub = name
+    if sub:
         rule.ok("%s: children use the handle simplified with this tile's trace, or the parent's when there is none" % label, file=path, line=fn["ln"])
     else:
-        rule.bad("%s|subtape" % label, "%s render_tile_recurse must simplify with the trace returned by this tile's interval evaluation (`%s`) and otherwise keep `shape`" % (label, tv), A.where(fn))
+        rule.bad("%s|subtape" % label, "%s render_tile_recurse must simplify with the trace returned by this tile's interval evaluation (`%s`) and otherwise keep `%s`: %s" % (label, tv, shape_p, why), A.where(fn))
+        return
     uses = [c for c in A.find(fn["body"], "MethodCall") if c["method"] in ("render_tile_recurse", "render_tile_pixels")]
-    bad = [c for c in uses if txt(c["args"][0]) != "sub_tape"]
+    bad = [c for c in uses if A.ident(A.strip(c["args"][0])) != sub]
     if uses and not bad:
-        rule.ok("%s: recursion and per-pixel evaluation both use sub_tape" % label)
+        rule.ok("%s: recursion and per-pixel evaluation both use %s" % (label, sub))
     else:
-        rule.bad("%s|subtape-use" % label, "%s: children / pixels are evaluated with `%s` instead of the simplified handle" % (label, txt(bad[0]["args"][0]) if bad else "?"), A.where(fn))
+        rule.bad("%s|subtape-use" % label, "%s: children / pixels are evaluated with `%s` instead of the simplified handle `%s`" % (label, txt(bad[0]["args"][0]) if bad else "?", sub), A.where(fn))
 
 
 # ---------------------------------------------------------------------------
@@ -160,39 +195,53 @@ def r_trace_use(rule, path, label, root=None):
 
 
 def r_root_tiles(rule, root=None):
+    """root tiles: corner (i * t, j * t) for i over ceil(width / t) columns and j over ceil(height / t) rows,
+    t = tile_sizes[0], width / height from the config.  Read with lets folded and with loops / iterator
+    chains treated alike."""
     fn = A.find_fn(LIB, "render_tiles", root=root)
-    t = txt(fn["body"])
-    frs = {
-        "width from the config's width": "letwidth=(render_config.width()asusize);",
-        "height from the config's height": "letheight=(render_config.height()asusize);",
-        "root tile size is the first tile size": "lett=tile_sizes[0];",
-    }
-    for what, f in frs.items():
-        if f in t:
-            rule.ok("render_tiles: %s" % what, file=LIB, line=fn["ln"])
-        else:
-            rule.bad("root|%s" % what[:20], "render_tiles: %s (`%s` not found)" % (what, f), A.where(fn))
-    loops = [l for l in A.find(fn["body"], "For") if "div_ceil" in txt(l["iter"])]
-    its = sorted(txt(l["iter"]) for l in loops)
-    if its == ["0..height.div_ceil(t)", "0..width.div_ceil(t)"]:
-        rule.ok("render_tiles: columns cover ceil(width / t), rows cover ceil(height / t)")
+    body = A.inline_lets_deep(fn["body"])
+    pts = [c for c in A.find(body, "Call") if (A.path_segs(c["func"]) or [])[-2:] == ["Point2", "new"] and len(c["args"]) == 2]
+    if len(pts) != 1:
+        rule.lost("the root tile corner `Point2::new(i * t, j * t)` in render_tiles (%d found)" % len(pts))
+        return
+    binders = A.enclosing_binders(body, pts[0]) or []
+    src = {name: A.iter_source(it) for name, it, _n in binders}
+    W = "(render_config.width()asusize)"
+    H = "(render_config.height()asusize)"
+    T0 = "tile_sizes[0]"
+    want_w = "0..%s.div_ceil(%s)" % (W, T0)
+    want_h = "0..%s.div_ceil(%s)" % (H, T0)
+    axis = {}
+    for name, s_ in src.items():
+        if s_ == want_w:
+            axis[name] = "width"
+        elif s_ == want_h:
+            axis[name] = "height"
+    got = sorted(src.values())
+    if sorted(axis.values()) == ["height", "width"] and len(src) == 2:
+        rule.ok("render_tiles: columns cover ceil(width / t), rows cover ceil(height / t), t = tile_sizes[0], from the config's width and height", file=LIB, line=fn["ln"])
+        rule.ok("render_tiles: width from the config's width")
+        rule.ok("render_tiles: height from the config's height")
+        rule.ok("render_tiles: root tile size is the first tile size")
     else:
-        rule.bad("root|loops", "render_tiles iterates %s; the root grid must be 0..width.div_ceil(t) by 0..height.div_ceil(t)" % its, A.where(fn))
-    if len(loops) == 2:
-        outer, inner = (loops[0], loops[1]) if any(n is loops[1] for n in A.walk(loops[0]["body"])) else (loops[1], loops[0])
-        vo, vi = A.binding_name(outer["pat"]), A.binding_name(inner["pat"])
-        axis = {vo: "width" if "width" in txt(outer["iter"]) else "height", vi: "width" if "width" in txt(inner["iter"]) else "height"}
-        pts = [c for c in A.find(inner["body"], "Call") if (A.path_segs(c["func"]) or [])[-2:] == ["Point2", "new"]]
-        if len(pts) == 1:
-            a0, a1 = [txt(a) for a in pts[0]["args"]]
-            m0 = re.fullmatch(r"\((\w+)\*tile_sizes\[0\]\)", a0)
-            m1 = re.fullmatch(r"\((\w+)\*tile_sizes\[0\]\)", a1)
-            if m0 and m1 and axis.get(m0.group(1)) == "width" and axis.get(m1.group(1)) == "height":
-                rule.ok("render_tiles: tile corner = (column * t, row * t)")
-            else:
-                rule.bad("root|corner", "root tile corner is (%s, %s); x must come from the width loop and y from the height loop" % (a0, a1), A.where(fn, pts[0]))
-        else:
-            rule.bad("root|corner", "root tile corner construction not found", A.where(fn))
+        rule.bad("root|loops", "render_tiles iterates %s; the root grid must be 0..width.div_ceil(t) by 0..height.div_ceil(t) with width / height from the config and t = tile_sizes[0]" % got, A.where(fn))
+        return
+
+    def factor(a):
+        a = A.strip(a)
+        if a.get("k") == "Binary" and a["op"] == "*":
+            l, r = txt(A.strip(a["left"])), txt(A.strip(a["right"]))
+            if r == T0 and l in axis:
+                return axis[l]
+            if l == T0 and r in axis:
+                return axis[r]
+        return None
+
+    f0, f1 = factor(pts[0]["args"][0]), factor(pts[0]["args"][1])
+    if (f0, f1) == ("width", "height"):
+        rule.ok("render_tiles: tile corner = (column * t, row * t)")
+    else:
+        rule.bad("root|corner", "root tile corner is (%s, %s); x must be the width index times t and y the height index times t" % (txt(pts[0]["args"][0]), txt(pts[0]["args"][1])), A.where(fn, pts[0]))
 
 
 def r_children(rule, path, label, dims, root=None):
